@@ -16,7 +16,8 @@ EXPLANATION = (
 DECIDED = ["R14a forward/reverse and BFS/DFS sibling agreement of expand (SIBLING over push events)",
            "R14b visit-once and SearchControl dispatch in SearchImpl (MUST/TABLE)",
            "R14c distance increments (TABLE)",
-           "R08e a freed graph slot is fully reset (shared with C08)"]
+           "R08e a freed graph slot is fully reset (shared with C08)",
+           "R08f from/to sibling functions of the graph module are mirror images (shared with C08)"]
 UNDECIDED = ["the resulting order and reachability on concrete graphs (needs execution)",
              "a search started at an edge also returns that edge's siblings (lazy sibling chaining): a behavioural "
              "consequence no exact structural rule separates from the intended behaviour; not reported"]
@@ -199,4 +200,6 @@ def run(ctx):
     # traversals follow the per-slot links; a reused slot must not carry links of the removed element (R08e)
     from rules import C08
     C08.slot_reset_rule(ctx)
+    # ... and walk the outgoing / incoming lists, whose maintenance must agree (R08f)
+    C08.mirror_rule(ctx)
     return 0
